@@ -298,7 +298,7 @@ var redirectTable = map[string]string{
 	"os_File_Stat": "(*os.File).Stat", "os_File_Write": "(*os.File).Write",
 	"gzip_NewWriterLevel": "compress/gzip.NewWriterLevel", "gzip_NewReader": "compress/gzip.NewReader", "gzip_Writer_Close": "(*compress/gzip.Writer).Close", "gzip_Writer_Flush": "(*compress/gzip.Writer).Flush", "tar_Writer_Flush": "(*archive/tar.Writer).Flush",
 	"tar_NewWriter": "archive/tar.NewWriter", "tar_NewReader": "archive/tar.NewReader", "tar_Writer_WriteHeader": "(*archive/tar.Writer).WriteHeader",
-	"tar_Writer_Close": "(*archive/tar.Writer).Close", "tar_Reader_Next": "(*archive/tar.Reader).Next", "io_Copy": "io.Copy",
+	"tar_Writer_Close": "(*archive/tar.Writer).Close", "tar_Reader_Next": "(*archive/tar.Reader).Next", "io_Copy": "io.Copy", "io_CopyBuffer": "io.CopyBuffer",
 	"tar_Header_FileInfo": "(*archive/tar.Header).FileInfo",
 	"json_MarshalIndent": "encoding/json.MarshalIndent", "json_Unmarshal": "encoding/json.Unmarshal", "sha256_New": "crypto/sha256.New",
 	"hex_EncodeToString": "encoding/hex.EncodeToString", "dirhash_HashDir": "golang.org/x/mod/sumdb/dirhash.HashDir", "dirhash_Hash1": "golang.org/x/mod/sumdb/dirhash.Hash1",
